@@ -470,6 +470,20 @@ fn part_case(
     let nframes = if uses_frame(&algo) && cloud.pts.len() > 0 { distinct_frames(&cloud, dim, &[1, 2, 4, 8, 16], 2) } else { 1 };
     if uses_frame(&algo) {
         counts.push(format!("frame-varies-with-pool:{}", if nframes > 1 { "yes" } else { "no" }));
+        // what the frame is under one thread: a signed permutation of the axes or a genuine rotation
+        let kind = match frame(&cloud, dim, 1) {
+            None => "none",
+            Some(m) => {
+                if m.iter().any(|b| f64::from_bits(*b).is_nan()) {
+                    "nan"
+                } else if m.iter().all(|b| [0.0, 1.0, -1.0].contains(&f64::from_bits(*b))) {
+                    "axis-permutation"
+                } else {
+                    "rotation"
+                }
+            }
+        };
+        counts.push(format!("frame-kind:{}:{}", stream, kind));
     }
     if nframes > 1 && cloud.exact_frame {
         fail = Some((
@@ -689,7 +703,7 @@ pub fn generate(ctx: &mut Ctx) {
 
     // ---- the partitioners, two input streams ---------------------------------
     let algos = ["rcb", "rcbf", "rib", "hilbert", "zcurve", "mj", "kmeans"];
-    let per_algo = ctx.budget(10, 60);
+    let per_algo = ctx.budget(18, 48);
     for algo in algos {
         for c in 0..per_algo {
             // alternate the streams; the exact-frame stream only matters where a frame is used,
@@ -701,7 +715,7 @@ pub fn generate(ctx: &mut Ctx) {
                 *ctx.rng.pick(&[300usize, 1000, 2500, 5000])
             } else if c == per_algo - 1 {
                 *ctx.rng.pick(&[0usize, 1, 2, 3, 7, 64])
-            } else if !quick || ctx.rng.chance(3, 4) {
+            } else if !quick || ctx.rng.chance(7, 8) {
                 *ctx.rng.pick(&big)
             } else {
                 500 + ctx.rng.usize(4000)
